@@ -43,16 +43,25 @@ class C08World(C07World):
         self.max_naks = cfg.get("naks", 2)
 
     def init_model(self, st):
-        st.m = {"stream": [], "covered": 0, "naks": 0, "md": None}
+        st.m = {"stream": [], "covered": 0, "naks": 0, "md": None, "tx": 0}
 
     def enabled(self, st):
         evs = super().enabled(st)
+        if self.idle(st) and st.m["stream"] and st.nput < self.cfg.get("max_tx", 1):
+            evs = evs + [("put", "valid")]  # the next transaction on the same handler: its retransmissions are its own
         if st.m["naks"] < self.max_naks and st.S.h.states.step.name in SERVICE_STEPS:
             evs = evs + self.naks
         return evs
 
     def update_model(self, st, ev, out):
         m = dict(st.m)
+        if ev[0] == "put":
+            if out.get("ret") is True:
+                m = {"stream": [], "covered": 0, "naks": 0, "md": None, "tx": m["tx"] + 1}
+            out["pre_stream"], out["pre_covered"], out["pre_md"], out["tx"] = [], 0, None, m["tx"]
+            st.m = m
+            return
+        out["tx"] = m["tx"]
         out["pre_stream"] = list(m["stream"])
         out["pre_covered"] = m["covered"]
         out["pre_md"] = m["md"]
@@ -77,6 +86,11 @@ class C08World(C07World):
         st.m = m
 
     def check(self, st, ev, out):
+        if ev[0] == "put":
+            e = self.exc(out)
+            if e or out.get("ret") is not True:
+                return [Violation(P, "C08.next_put", f"put request on the idle handler after a finished transaction: {e['exc'] if e else out.get('ret')!r}")]
+            return []
         if ev[0] != "nak":
             v = super().check(st, ev, out)
             for x in v:
@@ -107,6 +121,10 @@ class C08World(C07World):
                 x["clause"] = x["clause"].replace("C07.", "C08.resume_")
                 v.append(x)
         retx = emitted[n_orig:]
+        want_seq = [out.get("tx", 0) + c["seq0"], c["seqw"]]
+        for d in retx:
+            if d["seq"] != want_seq:
+                bad("C08.seq", f"re-sent {d['T']} PDU carries sequence number {d['seq']}, the running transaction has {want_seq}")
         # never any data outside the file
         for d in retx:
             if d["T"] == "FD":
@@ -168,6 +186,8 @@ def configs(tier):
         out.append(dict(mode="ack", size=size, seg=seg, closure=closure, naks=2))
     # a put request carrying every kind of Metadata option (filestore request, messages to user): the re-sent Metadata must equal the original
     out.append(dict(mode="ack", size=3, seg=2, closure=False, naks=3, msgs="all", fsreq=True))
+    # two consecutive transactions on one handler, NAKs (incl. the Metadata request) in both
+    out.append(dict(mode="ack", size=3, seg=2, closure=False, naks=1, max_tx=2))
     # configured segment length larger than what max_packet_len allows (header 10 + offset 4 + 6 data bytes): re-sent segments obey the derived length
     out.append(dict(mode="ack", size=13, seg=20, closure=False, naks=1, mpl=4 + 2 * 2 + 2 + 4 + 6))
     if tier == "thorough":
